@@ -55,8 +55,13 @@ class SymKDTree(Proxy):
         """k=1: index of a nearest point (minimises the Euclidean distance), and that distance.
         k>1: the k nearest, sorted by distance; every other point is at least as far."""
         _use("spatial.cKDTree.query")
-        if p != 2 or eps != 0:
+        if p != 2 or is_sym(eps) or eps < 0:
             raise Unsupported("kd-tree query with p/eps")
+        if eps != 0 and not (not is_sym(k) and k == 1):
+            raise Unsupported("approximate kd-tree query with k > 1")
+        # eps > 0 (scipy: "the k-th returned value is guaranteed to be no further than (1+eps) times
+        # the distance to the real k-th nearest neighbor"): the weaker guarantee is what is assumed.
+        slack = (1.0 + float(eps)) ** 2
         nq, xq, single = self._queries(x)
         c = ctx()
         if single:
@@ -67,7 +72,7 @@ class SymKDTree(Proxy):
             ia = idx.snapshot()
             n = self.n
             S.assume(Forall((nq,), lambda q: and_(ia(q) >= 0, ia(q) < n), name="kd.query.index_in_range"))
-            S.assume(Forall((nq, n), lambda q, j: self.d2(xq(q), ia(q)) <= self.d2(xq(q), j), name="kd.query.nearest"))
+            S.assume(Forall((nq, n), lambda q, j: self.d2(xq(q), ia(q)) <= (self.d2(xq(q), j) if slack == 1.0 else slack * self.d2(xq(q), j)), name="kd.query.nearest" if slack == 1.0 else "kd.query.approx_nearest"))
             dist = new_array((nq,), lambda i: spec_sqrt(self.d2(xq(i[0]), ia(i[0]))), "f")
             c.ghost.setdefault("kd.query", []).append((self, nq, xq, 1, idx))
             return dist, idx
